@@ -125,6 +125,30 @@ def run(ctx):
     if not found:
         chk.ok(R3, q, 'RepackMachine on the exception graph', detail='old pack never removed before the re-pointing commit on any exception path')
 
+    # index ranges along exception paths: an object whose write was interrupted by a tolerated exception leaves bytes in the pack; the next
+    # object's offset/length must still be taken from the handle (RangeMachine of C03.R1 runs on the exception graph; reported here as C17.R3)
+    from ..solver import run as solve
+    from .c03 import RangeMachine
+    from .common import specialisations
+    for q in ('container:Container.pack_all_loose', 'container:Container.add_streamed_objects_to_pack'):
+        fnq = prog.fn(q)
+        combos = [{}] if q.endswith('pack_all_loose') and not ctx.thorough else (
+            list(specialisations(fnq, {}, free={'do_fsync', 'do_commit', 'open_streams', 'compress'})) if not ctx.thorough else list(specialisations(fnq, {})))
+        badr = False
+        for consts in combos:
+            g = ctx.icfg(q, consts, pol, key='wp5')
+            m = RangeMachine(ctx, g, 'C17.R3')
+            viols, st = solve(g, m)
+            chk.crash_points += st['pairs']
+            chk.specialisations += 1
+            for v in viols:
+                if 'key' in v.msg and 'offset' not in v.msg:
+                    continue
+                badr = True
+                chk.bad(R3, q, v.node.text(120), v.msg + f' [flags {consts}]', where=v.node.where, witness=v.witness)
+        if not badr:
+            chk.ok(R3, q, f'RangeMachine on the exception graph, {len(combos)} flag combination(s)', detail='offset/length of every staged row are taken from the handle after any interrupted write', evals=len(combos))
+
     # ---------------------------------------------------------------- R4
     w = prog.fn('utils:HashWriterWrapper.write')
     calls = S.calls(w)
